@@ -15,6 +15,7 @@ import Rsp.Model.Choose
 import Rsp.Model.Ttl
 import Rsp.Model.Addr
 import Rsp.Model.Realm
+import Rsp.Model.Stream
 namespace Rsp.World
 open Rsp Rsp.Radmsg Rsp.Rewrite
 
@@ -994,6 +995,42 @@ def udpLoopTop (w : World) : World :=
   match w.udpPending with
   | some _ => w
   | none => let (w, o') := newrequest w; { w with udpPending := some o' }
+
+/-! ### one TCP connection on the listening side (tcp.c: tcpservernew / tcpserverrd / tcpserverwr) -/
+
+/-- `find_clconf(handle, from)` for the TCP listener: first TCP client block whose host list contains the source -/
+def tcpFindConf (w : World) (src : Bytes) : Option Nat :=
+  w.cliConfs.findIdx? fun c => c.type = 2 ∧ c.hosts.any fun (a, p) =>
+    if p ≥ 32 then a = src else Addr.prefixmatch src a p
+
+/-- `tcpserverrd`: requests are read off the stream one after the other and handed to `radsrv`; the first one `radsrv`
+    refuses (or the end of the stream, or an impossible length field) ends the loop. After each request the writer thread
+    sends what is queued for this association (recorded as events). `k` is the association. -/
+def tcpServe (w : World) (k : Nat) : Nat → Stream.Sock → World
+  | 0, _ => w
+  | fuel+1, s =>
+    match Stream.radGet true s with
+    | (.pkt b, s') =>
+      let p := newrequest w
+      let w := updRq p.1 p.2 fun r => { r with buf := some b, frm := some k }
+      let (w, ret) := radsrv w p.2
+      let outs := match getCli w k with
+        | some c => c.replyq.map fun o => ((getRq w o).bind (·.replybuf)).getD []
+        | none => []
+      let w := (popReplies w k).1
+      let w := { w with events := (outs.map fun b => "out:" ++ toHex b).reverse ++ w.events }
+      if ret = 0 then w else tcpServe w k fuel s'
+    | _ => w
+
+/-- `tcpservernew`: a connection from `src`; unknown peers are dropped before anything is read -/
+def tcpConn (w : World) (src : Bytes) (script : List Stream.Ev) : World :=
+  match tcpFindConf w src with
+  | none => w
+  | some conf =>
+    let k := w.clients.length
+    let w := { w with clients := w.clients ++ [{ conf := conf }] }
+    let w := tcpServe w k ((Stream.dataOf script).length + script.length + 4) { script := script }
+    removeclient w k
 
 /-! ### histories -/
 
